@@ -50,6 +50,13 @@ var UploadURLResponseSchema = arrow.NewSchema([]arrow.Field{
 // generate. Response: an Arrow IPC stream with one batch of (upload_url,
 // download_url, expires_at) rows.
 func (h *HttpServer) handleUploadURLInit(w http.ResponseWriter, r *http.Request) {
+	// Same gate as the RPC routes: this route has its own mux entry, so it
+	// does not inherit handleStreamInit's check. Without it a rejected caller
+	// could still have the provider mint pre-signed URLs.
+	if auth := h.authenticate(w, r); auth == nil {
+		return
+	}
+
 	if h.uploadURLProvider == nil {
 		http.NotFound(w, r)
 		return
